@@ -99,20 +99,24 @@ PROPS["C05"] = {
                          "everything of vm.rs / wasm.rs that is not cut (Machine::execute, wasmtime plumbing)"],
 }
 PROPS["C12"] = {
-    "verus_units": ["heap"],
+    "verus_units": ["heap", "usersum"],
+    "replay": "boxed",
+    "replay_units": ["usersum"],
     "kani_units": [RUNTIME_C12],
-    "floor": {"obligations": 12},
+    "floor": {"obligations": 29},
     "trusted_base": [
+        "unit usersum: model of the interned types (TypeNodeId::to_type/word_size, a `Type` enum with the five variants the walkers distinguish and `Other` for the rest; type trees are finite: axiom_rank), heap functions as callee contracts with a ghost operation log, Machine::get_as::<HeapIdx> (transmute) as handle_of, vx_find_usersum for the type_table lookup (`iter().find(.. matches! ..)`)",
+        "release_usersum_recursive is verified for partial correctness only (exec_allows_no_decreases_clause): it follows handles into heap objects while freeing, termination depends on the heap being acyclic",
         "model of slotmap::SlotMap<DefaultKey, V> (finite map + ghost set of issued keys; get_mut / remove contracts) — third-party crate, validated bounded by the Kani harness slotmap_model_validation on the real slotmap",
         "vstd specifications of Vec and vec![0; n]",
     ],
     "assumptions": ["data-structure invariant heap_wf (every live object has refcount >= 1 and size == data.len()) holds on entry; it is established by HeapObject::{new,with_data} and preserved by all three operations (proved)",
                     "heap_retain: refcount < u64::MAX (2^64 retains of one object cannot occur)"],
     "not_covered": [
-        "whether the compiler emits balanced Clone/Release/Close (insert_*_recursively in mirgen.rs) and the VM-side walkers drop_closure / release_heap_closure / release_usersum_recursive / clone_usersum_recursive (need the whole Machine and the type interner)",
+        "whether the compiler emits balanced Clone/Release/Close (insert_*_recursively in mirgen.rs); the closure-side walkers drop_closure / release_heap_closure (need the whole Machine)",
         "boundedness of live closures/objects over time: a whole-history property of generated programs",
     ],
-    "explanation": "C12 heap-object clause: heap_retain / heap_release / heap_release_closure proved against the abstract map view (exact effect, frame, no arithmetic underflow, last release removes the object and the handle no longer resolves); balance lemma over the contracts (ghost history); the same contracts checked bit-precisely on the real slotmap by Kani with a bounded population.",
+    "explanation": "C12: (usersum) the two type-directed walkers agree on WHERE the heap handles of a value are: `slots(ty, data)` is the layout function (boxed / type-alias word, tag-selected variant payload, tuple and record fields at prefix-sum offsets); clone_usersum_recursive retains exactly slots(ty,data), once each, in order; release_usersum_recursive releases every handle of slots(ty,data) (log monotone); heap-object clause: heap_retain / heap_release / heap_release_closure proved against the abstract map view (exact effect, frame, no arithmetic underflow, last release removes the object and the handle no longer resolves); balance lemma over the contracts (ghost history); the same contracts checked bit-precisely on the real slotmap by Kani with a bounded population.",
     "samples": [
         {"obligation": "heap_release::ensures", "clause": "rc==1 ==> storage' == storage.remove(idx) && !storage'.contains_key(idx)"},
         {"obligation": "lemma_balance", "clause": "run(Some(n), ops) == Some(n + retains(ops) - releases(ops)) while every prefix releases fewer than exist"},
